@@ -44,10 +44,14 @@ def chgSearch : List Char → Option (List Char × List Char × List Char)
     else (chgSearch cs).map fun (b, m, a) => (c :: b, m, a)
 
 /-- `search(mpp_re, token)` with `mpp_re = :[1-9][0-9]*$`: (before, number) of the leftmost match -/
+def mppTail : List Char → Bool
+  | d :: ds => '1' ≤ d && d ≤ '9' && ds.all isDigit
+  | [] => false
+
 def mppSearch : List Char → Option (List Char × Nat)
   | [] => none
   | c :: cs =>
-    if c == ':' && (match cs with | d :: ds => '1' ≤ d && d ≤ '9' && ds.all isDigit | [] => false)
+    if c == ':' && mppTail cs
     then some ([], natOfDigits cs)
     else (mppSearch cs).map fun (b, n) => (c :: b, n)
 
@@ -158,6 +162,34 @@ def allSame : List Char → Bool
   | [] => true
   | c :: cs => cs.all (· == c)
 
+/-- store a numeric primitive under its key -/
+def setPrim (out : Parsed) (t : Char) (nums : List Int) : Parsed :=
+  if t == 'D' then { out with neighbors := some nums }
+  else if t == 'h' then { out with implH := some nums }
+  else if t == 'r' then { out with ringSizes := some (.lst nums) }
+  else if t == 'x' then { out with heteroatoms := some nums }
+  else { out with hybridization := some (.lst nums) }
+
+/-- the `else:` branch of the primitive loop: `p = p.split(',')` … -/
+def applyNumPrim (out : Parsed) (ps : List (List Char)) : Except PyErr Parsed :=
+  -- `len(p) != 1 and len({x[0] for x in p}) > 1`: the set comprehension indexes every item (IndexError on an empty one)
+  match (if ps.length != 1 then firstChars ps else some []) with
+  | none => .error .indexError
+  | some fcs =>
+    if ps.length != 1 && !allSame fcs then .error .incorrectSmarts
+    else
+      match ps with
+      | [] => .error .indexError
+      | p0 :: _ =>
+        match p0 with
+        | [] => .error .indexError
+        | t :: _ =>
+          if !primLetters.contains t then .error .incorrectSmarts
+          else
+            match parsePrimNums ps with
+            | .error e => .error e
+            | .ok nums => .ok (setPrim out t nums)
+
 /-- one `;`-separated primitive applied to `out` -/
 def applyPrim (out : Parsed) (p : List Char) : Except PyErr Parsed :=
   if p.isEmpty then .ok out
@@ -165,61 +197,65 @@ def applyPrim (out : Parsed) (p : List Char) : Except PyErr Parsed :=
   else if p == ['A'] then .ok out
   else if p == ['!', 'R'] then .ok { out with ringSizes := some (.int 0) }
   else if p == ['M'] then .ok { out with masked := true }
-  else
-    let ps := splitOn ',' p
-    -- `len(p) != 1 and len({x[0] for x in p}) > 1`: the set comprehension indexes every item (IndexError on an empty one)
-    match (if ps.length != 1 then firstChars ps else some []) with
-    | none => .error .indexError
-    | some fcs =>
-      if ps.length != 1 && !allSame fcs then .error .incorrectSmarts
-      else
-        match ps with
-        | [] => .error .indexError
-        | p0 :: _ =>
-          match p0 with
-          | [] => .error .indexError
-          | t :: _ =>
-            if !primLetters.contains t then .error .incorrectSmarts
-            else do
-              let nums ← parsePrimNums ps
-              if t == 'D' then .ok { out with neighbors := some nums }
-              else if t == 'h' then .ok { out with implH := some nums }
-              else if t == 'r' then .ok { out with ringSizes := some (.lst nums) }
-              else if t == 'x' then .ok { out with heteroatoms := some nums }
-              else .ok { out with hybridization := some (.lst nums) }
+  else applyNumPrim out (splitOn ',' p)
 
 def applyPrims : Parsed → List (List Char) → Except PyErr Parsed
   | out, [] => .ok out
   | out, p :: ps => do let o ← applyPrim out p; applyPrims o ps
 
+/-- the marks `_query_parse` cuts out of the token before splitting: isotope, charge, atom map, stereo -/
+structure Marks where
+  isotope : Option Nat
+  charge : Option Int
+  mapping : Option Nat
+  stereo : Option Bool
+  deriving Repr, DecidableEq, Inhabited
+
+/-- first half of `_query_parse`: the four regex steps, in source order (`KeyError` for a charge text not in `charge_dict`) -/
+def stripMarks (token : List Char) : Except PyErr (List Char × Marks) :=
+  let t1 := (spanDigits token).2
+  let isoDigits := (spanDigits token).1
+  let isotope : Option Nat := if isoDigits.isEmpty then none else some (natOfDigits isoDigits)
+  match chgSearch t1 with
+  | none =>
+    let t3 := match mppSearch t1 with | none => t1 | some (b, _) => b
+    let mapping := (mppSearch t1).map (·.2)
+    let t4 := match strSearch t3 with | none => t3 | some (b, _, a) => b ++ a
+    let stereo := (strSearch t3).map fun (_, m, _) => m == ['@']
+    .ok (t4, { isotope, charge := none, mapping, stereo })
+  | some (b, m, a) =>
+    match lookupC m chargeDict with
+    | none => .error .keyError
+    | some c =>
+      let t2 := b ++ a
+      let t3 := match mppSearch t2 with | none => t2 | some (b, _) => b
+      let mapping := (mppSearch t2).map (·.2)
+      let t4 := match strSearch t3 with | none => t3 | some (b, _, a) => b ++ a
+      let stereo := (strSearch t3).map fun (_, m, _) => m == ['@']
+      .ok (t4, { isotope, charge := some c, mapping, stereo })
+
+def mkElem : List ElemTok → ElemSpec
+  | [x] => .one x
+  | l => .many l
+
+/-- second half: `;` / `,` splitting, element part, primitives -/
+def parseBody (t4 : List Char) (mk : Marks) : Except PyErr Parsed :=
+  match splitOn ';' t4 with
+  | [] => .error .incorrectSmarts
+  | e :: prims =>
+    if e.isEmpty then .error .incorrectSmarts
+    else
+      match parseElemItems (splitOn ',' e) with
+      | .error err => .error err
+      | .ok items =>
+        applyPrims { isotope := mk.isotope, charge := mk.charge, mapping := mk.mapping, stereo := mk.stereo,
+                     element := mkElem items } prims
+
 /-- `_query_parse(token)` -/
 def queryParse (token : List Char) : Except PyErr Parsed :=
-  let (isoDigits, t1) := spanDigits token
-  let isotope : Option Nat := if isoDigits.isEmpty then none else some (natOfDigits isoDigits)
-  let chg := chgSearch t1
-  match (match chg with
-         | none => Except.ok (t1, none)
-         | some (b, m, a) => match lookupC m chargeDict with
-           | none => Except.error PyErr.keyError
-           | some c => Except.ok (b ++ a, some c)) with
+  match stripMarks token with
   | .error e => .error e
-  | .ok (t2, charge) =>
-    let (t3, mapping) : List Char × Option Nat := match mppSearch t2 with
-      | none => (t2, none)
-      | some (b, n) => (b, some n)
-    let (t4, stereo) : List Char × Option Bool := match strSearch t3 with
-      | none => (t3, none)
-      | some (b, m, a) => (b ++ a, some (m == ['@']))
-    match splitOn ';' t4 with
-    | [] => .error .incorrectSmarts
-    | e :: prims =>
-      if e.isEmpty then .error .incorrectSmarts
-      else do
-        let items ← parseElemItems (splitOn ',' e)
-        let element : ElemSpec := match items with
-          | [x] => .one x
-          | l => .many l
-        applyPrims { isotope, charge, mapping, stereo, element } prims
+  | .ok (t4, mk) => parseBody t4 mk
 
 /-! ## `smarts()`: building one query atom from the parsed keywords -/
 
